@@ -73,6 +73,26 @@ def generate(repo, ws, write_if_changed):
         dict(kind="fn", name="find_height_after_window_fast"),
         dict(kind="fn", name="find_height_after_window_slow"),
     ]))
+    # every top-level `fn parse_*` of header_ex.rs (so that a refactor that introduces a shared
+    # parsing helper is still sliced completely)
+    import re as _re
+    hx_text = _read(repo, "node/src/p2p/header_ex.rs")
+    parse_fns = []
+    for m in _re.finditer(r"^(?:pub(?:\([^)]*\))?\s+)?fn\s+(parse_\w+)", hx_text, _re.M):
+        if m.group(1) not in parse_fns:
+            parse_fns.append(m.group(1))
+    for need in ("parse_header_request", "parse_header_response"):
+        if need not in parse_fns:
+            raise sl.SliceError(f"fn {need} not found in header_ex.rs")
+    emit("header_ex_c30.rs", slice_file(repo, "node/src/p2p/header_ex.rs",
+                                        [dict(kind="fn", name=n) for n in parse_fns]))
+    emit("namespace_proof_c16.rs", slice_file(repo, "types/src/nmt/namespace_proof.rs", [
+        dict(kind="fn", name="total_leaves", impl=r"^impl NamespaceProof$", wrap="impl NamespaceProof"),
+    ]))
+    emit("row_proof_c16.rs", slice_file(repo, "types/src/data_availability_header.rs", [
+        dict(kind="struct", name="RowProof", rewrite=[('#[derive(Debug, Clone, PartialEq, Serialize, Deserialize)]\n#[serde(try_from = "RawRowProof", into = "RawRowProof")]', '// derives removed by the slicer')]),
+        dict(kind="fn", name="verify", impl=r"^impl RowProof$", wrap="impl RowProof"),
+    ]))
     emit("client_c28.rs",
          slice_file(repo, "node/src/p2p/header_ex/client.rs", [
              dict(kind="fn", name="decode_and_verify_responses"),
